@@ -10,6 +10,7 @@
 
    The unit of interleaving is the code between two schedule points (USCXML_VERIF_POINT):
      interpreter:  IIdle (next op; for <cancel> this is interp.cancelDelayed.before)
+                   ISendArmed = interp.enqueue.armed  (the timer is armed; holds _delayMutex)
                    IQBefore  = delay.cancel.before   (holds _delayMutex)
                    IQLocked  = delay.cancel.locked   (holds _delayMutex and the queue's _mutex)
      timer:        TIdle     (libevent waits for the next timer)
@@ -71,11 +72,16 @@ Record dvariant := {
   (* redesign: the callback argument outlives the map entry and cancel never waits for a running
      callback (event_free_finalize): it erases the entry, libevent frees the timer after the
      callback returned, the callback finds no entry and returns *)
-  dv_cancel_noblock : bool
+  dv_cancel_noblock : bool;
+  (* a deviation that is not in the code as it is (the model can follow a tree that has it):
+     InterpreterImpl::enqueue hands the event to the delayed queue first, without _delayMutex, and
+     records the (sendid, target) entry afterwards; as it is, both happen under _delayMutex *)
+  dv_enqueue_arms_first : bool
 }.
-Definition dv_pinned   := {| dv_cb_takes_entry := false; dv_ready_checks := false; dv_cancel_noblock := false |}.
-Definition dv_window   := {| dv_cb_takes_entry := true;  dv_ready_checks := true;  dv_cancel_noblock := false |}.
-Definition dv_repaired := {| dv_cb_takes_entry := true;  dv_ready_checks := true;  dv_cancel_noblock := true |}.
+Definition dv_pinned   := {| dv_cb_takes_entry := false; dv_ready_checks := false; dv_cancel_noblock := false; dv_enqueue_arms_first := false |}.
+Definition dv_window   := {| dv_cb_takes_entry := true;  dv_ready_checks := true;  dv_cancel_noblock := false; dv_enqueue_arms_first := false |}.
+Definition dv_repaired := {| dv_cb_takes_entry := true;  dv_ready_checks := true;  dv_cancel_noblock := true;  dv_enqueue_arms_first := false |}.
+Definition dv_arms_first := {| dv_cb_takes_entry := true; dv_ready_checks := true;  dv_cancel_noblock := false; dv_enqueue_arms_first := true |}.
 
 (* ---- state ---- *)
 Inductive iop :=
@@ -100,6 +106,7 @@ Inductive fault_t := UseAfterFree (u : N) | DoubleFree (u : N).
 
 Inductive ipc_t :=
 | IIdle
+| ISendArmed (u sid tgt : N)       (* in InterpreterImpl::enqueue, enqueueDelayed has returned (interp.enqueue.armed) *)
 | IQBefore (sid u : N) (todo : list N)
 | IQLocked (sid u : N) (todo : list N)
 | IAllLocked.                      (* inside cancelAllDelayed, holding the queue's _mutex *)
@@ -213,25 +220,31 @@ Section Step.
         | OSend u sid tgt d :: rest =>
             (* InterpreterImpl::enqueue: lock _delayMutex; _delayedEventTargets[uuid] = ...;
                delay 0: eventReady at once; else BasicDelayedEventQueue::enqueueDelayed *)
-            if negb (available (delayM s) Interp) then None else
             let tr := ESend u sid tgt (now s) d :: trace s in
             if d =? 0 then
+              if negb (available (delayM s) Interp) then None else
               Some {| now := now s; prog := rest; ipc := IIdle; tpc := tpc s; pending := pending s;
                       targets := remove u (targets s);
                       current_cb := current_cb s; delayM := delayM s; queueM := queueM s;
                       trace := EDeliver u (now s) tgt false :: tr; fault := None |}
             else
               if negb (available (queueM s) Interp) then None else
-              (* if (_callbackData.find(uuid) != end) cancelDelayed(uuid); *)
-              match cancel_entry v (current_cb s) (pending s) u with
-              | CBlocked => None
-              | CFault f => Some (set_fault s f)
-              | CDone pd =>
-                  Some {| now := now s; prog := rest; ipc := IIdle; tpc := tpc s;
-                          pending := put u {| p_enq := now s; p_delay := d; p_alloc := true; p_armed := true |} pd;
-                          targets := put u (sid, tgt) (targets s);
-                          current_cb := current_cb s; delayM := delayM s; queueM := queueM s;
-                          trace := tr; fault := None |}
+              (* as it is: lock _delayMutex, record the target, arm the timer; with
+                 dv_enqueue_arms_first only the timer is armed here, without the lock *)
+              match (if dv_enqueue_arms_first v then Some (delayM s) else acquire (delayM s) Interp) with
+              | None => None
+              | Some dl =>
+                  (* enqueueDelayed: if (_callbackData.find(uuid) != end) cancelDelayed(uuid); *)
+                  match cancel_entry v (current_cb s) (pending s) u with
+                  | CBlocked => None
+                  | CFault f => Some (set_fault s f)
+                  | CDone pd =>
+                      Some {| now := now s; prog := rest; ipc := ISendArmed u sid tgt; tpc := tpc s;
+                              pending := put u {| p_enq := now s; p_delay := d; p_alloc := true; p_armed := true |} pd;
+                              targets := if dv_enqueue_arms_first v then targets s else put u (sid, tgt) (targets s);
+                              current_cb := current_cb s; delayM := dl; queueM := queueM s;
+                              trace := tr; fault := None |}
+                  end
               end
         | OCancel sid :: rest =>
             (* InterpreterImpl::cancelDelayed: lock _delayMutex, walk _delayedEventTargets *)
@@ -267,6 +280,18 @@ Section Step.
                               targets := targets s; current_cb := current_cb s;
                               delayM := delayM s; queueM := release (queueM s); trace := trace s; fault := None |}
         end
+    | ISendArmed u sid tgt =>
+        if dv_enqueue_arms_first v then
+          (* now lock _delayMutex and record the target *)
+          if negb (available (delayM s) Interp) then None else
+          Some {| now := now s; prog := prog s; ipc := IIdle; tpc := tpc s; pending := pending s;
+                  targets := put u (sid, tgt) (targets s); current_cb := current_cb s;
+                  delayM := delayM s; queueM := queueM s; trace := trace s; fault := None |}
+        else
+          (* return from enqueue: unlock _delayMutex *)
+          Some {| now := now s; prog := prog s; ipc := IIdle; tpc := tpc s; pending := pending s;
+                  targets := targets s; current_cb := current_cb s;
+                  delayM := release (delayM s); queueM := queueM s; trace := trace s; fault := None |}
     | IQBefore sid u todo =>
         (* BasicDelayedEventQueue::cancelDelayed: lock _mutex *)
         match acquire (queueM s) Interp with
@@ -464,6 +489,27 @@ Definition cancel_ok_b (tr : list obs) : bool := cancel_ok_aux (rev tr) [] [].
 
 Definition delay_admissibleb (gran : N) (tr : list obs) : bool :=
   nodup_N (delivered tr) && not_early_b tr && due_sorted_b gran (timer_dues tr tr) && cancel_ok_b tr.
+
+(* a finished run has delivered every event whose sendid the program never cancels *)
+Fixpoint cancel_sids (p : list iop) : list N :=
+  match p with
+  | [] => []
+  | OCancel sid :: r => sid :: cancel_sids r
+  | _ :: r => cancel_sids r
+  end.
+Definition has_cancel_all (p : list iop) : bool :=
+  existsb (fun o => match o with OCancelAll => true | _ => false end) p.
+Definition complete_b (p : list iop) (tr : list obs) : bool :=
+  has_cancel_all p ||
+  forallb (fun o => match o with
+                    | ESend u sid _ _ _ => existsb (N.eqb sid) (cancel_sids p) || existsb (N.eqb u) (delivered tr)
+                    | _ => true
+                    end) tr.
+Definition finished (s : dstate) : bool :=
+  match ipc s, prog s, tpc s, armed_list (pending s), fault s with
+  | IIdle, [], TIdle, [], None => true
+  | _, _, _, _, _ => false
+  end.
 
 (* programs: the UUIDs of the sends are pairwise different (UUID::getUUID) *)
 Fixpoint send_uuids (p : list iop) : list N :=
